@@ -653,7 +653,7 @@ def main(prop, tier, seed, replay_file):
             try:
                 from . import check_client
                 check_client.negotiation(chk, tier, seed)
-            except ImportError:
+            except (ImportError, AttributeError):
                 chk.notes.append("version negotiation (last sentence of C04) is checked by the client family once built")
         elif prop == "C05":
             wd, vecs = load_vectors(chk, prop, tier, ["resp", "msgset", "wrapset"])
